@@ -4,6 +4,8 @@ Part A  synthetic item lists -> the real filter / sort / generateSummary functio
         "report_keys", "unified") vs the Coq model and spec (Report/ReportRun.v) vs a direct recomputation.
 Part B  generated projects x filter/threshold settings -> `pyscn analyze --json`; every summary number of the
         report recomputed from the items of the same report (c16report.check_report).
+Part B3 project-size lattice (c16report.make_size_project; synthetic responses in part A6): the derived ratio of the unified summary
+        (code_duplication_percentage) of every report against the Coq model (ReportRun.run_dup) on clone.statistics of the same report.
 Part B2 risk-lattice projects (c16report.make_lattice_project) x default / configured thresholds -> the CLI; every item's risk level
         against the classification of its own reported metric by the thresholds echoed in the same report (items ON, next to and two
         away from each threshold; CBO classes in every self-reference form), summaries' risk counts recounted from the metrics.
@@ -467,7 +469,12 @@ def report(ck, what, replay, tags=None):
         ck.known_finding(e)
         return
     ck.nviol = getattr(ck, "nviol", 0) + 1
-    if ck.nviol <= 6:
+    # at most 3 per kind of input (synthetic unified response, CLI project, format rendering ...) and 12 in all, so that a
+    # defect visible both in-process and through the CLI is shown with a concrete report of each kind
+    kinds = ck.__dict__.setdefault("nviol_by_kind", {})
+    k = replay.get("kind") if isinstance(replay, dict) else None
+    kinds[k] = kinds.get(k, 0) + 1
+    if kinds[k] <= 3 and sum(min(v, 3) for v in kinds.values()) <= 12:
         ck.violation(what, replay)
 
 
@@ -867,6 +874,8 @@ def decide_ratios(ck, stats, consts):
             b = size_band(consts, q["lines"], q["groups"])
             key = "%s/groups=%s" % (b, q["groups"] if q["groups"] <= 3 else ">3")
             stats["report_size_cells"][key] = stats["report_size_cells"].get(key, 0) + 1
+            if q.get("pairs", 0) != q["groups"] and q["groups"] > 0:
+                stats["ratio_reports_pairs_ne_groups"] += 1
         got = q["reported"]
         if not isinstance(got, (int, float)) or not close(want, got):
             tags = {"section": "summary", "field": "code_duplication_percentage"}
@@ -1178,7 +1187,7 @@ def main(tier):
     thorough = tier == "thorough"
     labels = R.parse_labels()
     stats = {"evals": 0, "mismatch": 0, "cli_runs": 0, "reports": 0, "numbers_recomputed": 0, "format_renders": 0, "no_report": 0, "runs_differing": 0,
-             "sections_nonempty": set(), "yaml_reader": "-", "lattice_items": {}, "pending_ratios": [], "ratios_recomputed": 0,
+             "sections_nonempty": set(), "yaml_reader": "-", "lattice_items": {}, "pending_ratios": [], "ratios_recomputed": 0, "ratio_reports_pairs_ne_groups": 0,
              "unified_size_cells": {}, "report_size_cells": {}}
     consts = dup_consts()
     model_ok = not any(("Report/" in f or "Gen/" in f or "Score/" in f) for f in getattr(ck, "failed_files", []))
@@ -1194,10 +1203,7 @@ def main(tier):
             dist["value_sections"] = part_values(ck, rng, labels, n, stats)
             dist["dead_code"] = part_deadcode(ck, rng, n, stats)
             dist["clones"] = part_clones(ck, rng, n, stats)
-            import time as _t
-            _t0 = _t.time()
             dist["unified"] = part_unified(ck, rng, n, stats, consts, 3 if thorough else 1)
-            print("TIMING unified %.1f" % (_t.time() - _t0))
         except Exception as e:
             ck.broken_ties.append("synthetic correspondence failed: %s" % str(e)[-800:])
         try:
@@ -1210,10 +1216,7 @@ def main(tier):
         except Exception as e:
             ck.broken_ties.append("risk lattice part failed: %s" % str(e)[-800:])
         try:
-            import time as _t
-            _t0 = _t.time()
             dist["size_lattice_projects"] = part_sizes(ck, rng, labels, thorough, stats, consts)
-            print("TIMING sizes %.1f" % (_t.time() - _t0))
             decide_ratios(ck, stats, consts)
             holes = [b for b in BANDS if not any(k.startswith(b + "/") for k in stats["report_size_cells"])]
             holes += ["%s (synthetic)" % b for b in BANDS if b not in stats["unified_size_cells"]]
@@ -1233,6 +1236,13 @@ def main(tier):
                 "risk-lattice projects through the CLI (default thresholds, a fixed configured set, configured sets drawn from the seed): complexity functions, "
                 "CBO classes and LCOM classes with the metric exactly ON each threshold in effect and 1, 2 above / below, the CBO classes in every self-reference form "
                 "(%s) with collaborators named by instantiation / parameter, attribute, return annotation / base class / imported name in rotating order; "
+                "project-SIZE lattice of the derived ratio of the unified summary (code_duplication_percentage = f(total_clone_groups, lines_analyzed)): "
+                "synthetic responses and generated CLI projects (1, 2, 3 families of duplicated functions in two or three copies + comment / blank / statement padding to an exact "
+                "analysed line count, one or two files) whose line count is ON, one below / above and strictly between (seed-drawn non-multiples) the minimum size, every multiple of "
+                "the size unit and the size at which that many groups leave the cap, up to two units beyond; synthetic cases also with the group count just below / at / above the "
+                "cap for the size and projects of tens of units; the ratio of EVERY report of the run (edge, risk-lattice and size projects, 0 without a clone section) decided against "
+                "the model ReportRun.run_dup = ScoreQ.code_duplication_of evaluated in Coq on clone.statistics of the same report; formula branches reached are measured (a hole is reported); "
+                "deps_modules_in_cycles / deps_main_sequence_deviation / arch_compliance of the unified summary = the system section's own numbers; "
                 "per item: risk level = classification of the item's own reported metric by the thresholds echoed in the same report; risk counts of the section and unified "
                 "summaries = recount of the items' metrics; echoed thresholds = thresholds in effect; lattice coverage measured from the report (a hole is reported); " % ", ".join(R.SELF_FORMS) +
                 "formats: the same response rendered by every formatter in-process (incl. variants with nil sections/lists/maps) and one CLI run per format",
@@ -1240,7 +1250,11 @@ def main(tier):
                                    numbers_recomputed_from_items=stats["numbers_recomputed"], format_renders=stats["format_renders"],
                                    runs_without_report=stats["no_report"], cli_run_pairs_with_different_results_skipped=stats["runs_differing"], sections_with_items=stats["sections_nonempty"],
                                    yaml_reader_for_cli_files=stats["yaml_reader"],
-                                   risk_lattice_items_on_or_next_to_an_echoed_threshold=stats["lattice_items"]),
+                                   risk_lattice_items_on_or_next_to_an_echoed_threshold=stats["lattice_items"],
+                                   derived_ratios_decided_against_the_model_per_report=stats["ratios_recomputed"],
+                                   reports_by_duplication_formula_branch_and_group_count=dict(sorted(stats["report_size_cells"].items())),
+                                   reports_with_clone_pairs_ne_groups=stats["ratio_reports_pairs_ne_groups"],
+                                   synthetic_unified_responses_by_duplication_formula_branch=dict(sorted(stats["unified_size_cells"].items()))),
         "model_mismatches": stats["mismatch"],
         "disagreements_checked": stats["mismatch"] + getattr(ck, "nviol", 0) + len(ck.known_hits),
         "level_note": "theorems cover the summary/filter/risk/projection logic (models tied by sampled correspondence); the format clauses "
@@ -1249,7 +1263,7 @@ def main(tier):
     })
     ck.trusted += ["Coq 8.16.1 kernel, vm_compute for model evaluation",
                    "translator /verif/translator/gen_report.go (bucket chains, risk and filter comparison operators, top-N lengths) and gen_check.go (severity levels)",
-                   "hand-written models Report/Summary.v, Report/Filters.v, Score/ScoreQ.v:assemble of the service generateSummary/filter functions and calculateSummary",
+                   "hand-written models Report/Summary.v, Report/Filters.v, Score/ScoreQ.v:assemble / code_duplication_of of the service generateSummary/filter functions and calculateSummary",
                    "float64 averages compared with the exact rational within 1e-9 relative",
                    "formats: regex extraction of headline numbers from CSV/text/HTML; YAML read by PyYAML when present, else by yaml.v3 itself; "
                    "JSON/YAML compared as data modulo key spelling (FilePath/file_path/filepath), nil-vs-empty, timestamps, durations and the io.Writer echo",
